@@ -538,7 +538,14 @@ func (x *Exec) applyContract(fr *Frame, st *State, ctr *Contract, sig *types.Sig
 		if c.Kind == "maypanic" && !isGo {
 			// the callee may panic instead of returning, possibly after some of its effects:
 			// the panic state is the state with the callee's frame havocked and no postcondition
-			x.panicEdge(fr, st, instr, shortKey(ctr.Key), c.Tags)
+			if ps := x.panicEdge(fr, st, instr, shortKey(ctr.Key), c.Tags); ps != nil {
+				// what the callee guarantees even when it panics
+				for _, oc := range ctr.Clauses {
+					if oc.Kind == "onpanic" {
+						x.smt.Assert(implies(ps.pc, ev(oc.Expr, ps, old)))
+					}
+				}
+			}
 			break
 		}
 	}
@@ -1032,7 +1039,7 @@ func (fr *Frame) hasRecoveringDefer() bool {
 // Otherwise the state at the call is recorded; when the body of the current
 // frame is finished the deferred calls are run on it in panicking mode and
 // execution resumes at the function's recover block (see finishPanics).
-func (x *Exec) panicEdge(fr *Frame, st *State, instr ssa.Instruction, what string, tags []string) {
+func (x *Exec) panicEdge(fr *Frame, st *State, instr ssa.Instruction, what string, tags []string) *State {
 	recovering := false
 	for f := fr; f != nil; f = f.parent {
 		if f.hasRecoveringDefer() {
@@ -1042,7 +1049,14 @@ func (x *Exec) panicEdge(fr *Frame, st *State, instr ssa.Instruction, what strin
 	}
 	if !recovering {
 		if x.topCtr != nil && x.topCtr.has("maypanic") {
-			return // the function under verification declares that it lets panics escape: its callers answer for them
+			// the function under verification declares that it lets panics escape: its callers
+			// answer for them; its `onpanic ensures` clauses are checked on the escaping state
+			es := st.clone()
+			b := x.smt.Fresh("panics", SBool)
+			es.pc = x.smt.Name("pc", SBool, and(st.pc, b))
+			st.pc = x.smt.Name("pc", SBool, and(st.pc, not(b)))
+			x.escaped = append(x.escaped, es)
+			return es
 		}
 		if x.safety {
 			name := x.siteName(fmt.Sprintf("%s/extpanic.%s@%s", x.prog.relName(x.topFn), what, x.srcText(instr)))
@@ -1052,7 +1066,7 @@ func (x *Exec) panicEdge(fr *Frame, st *State, instr ssa.Instruction, what strin
 			}
 			x.oblige(st, "panic", name, t, instr.Pos(), "false")
 		}
-		return
+		return nil
 	}
 	if os.Getenv("GOCV_DEBUG_PANIC") != "" {
 		fmt.Fprintf(os.Stderr, "panic edge at %s in %s (recovering frame found)\n", what, fr.fn.Name())
@@ -1065,6 +1079,7 @@ func (x *Exec) panicEdge(fr *Frame, st *State, instr ssa.Instruction, what strin
 	// the normal continuation is the other case: facts assumed about the callee's normal
 	// return (its postconditions) must not leak into the panic state, which shares its terms
 	st.pc = x.smt.Name("pc", SBool, and(st.pc, not(b)))
+	return ps
 }
 
 // finishPanics runs after the body of fr: the recorded panic states unwind through
@@ -1099,7 +1114,9 @@ func (x *Exec) finishPanics(fr *Frame, in map[*ssa.BasicBlock][]edgeState, loops
 	if !recovered {
 		if fr.parent != nil {
 			fr.parent.panicStates = append(fr.parent.panicStates, st)
-		} else if x.safety && !(x.topCtr != nil && x.topCtr.has("maypanic")) {
+		} else if x.topCtr != nil && x.topCtr.has("maypanic") {
+			x.escaped = append(x.escaped, st)
+		} else if x.safety {
 			x.oblige(st, "panic", x.siteName(fmt.Sprintf("%s/extpanic.unrecovered", x.prog.relName(x.topFn))), x.safetyTag, fr.fn.Pos(), "false")
 		}
 		return
